@@ -1,4 +1,5 @@
 //@host src/io_loop/content_collector.rs
+//@quick (generic sweep without wall-clock dependence: also runs in the quick tier, labelled bounded)
 // C03/C07 bounded stand-in: every kind of content, pseudo-random body sizes (including 0, 1 and sizes around the 1 MiB
 // reservation bound) and pseudo-random partitions into body frames, through the real ContentCollector; plus overrun and
 // out-of-sequence frames. Bound: 400 messages.
